@@ -91,13 +91,14 @@ def _is_iter_item_adaptor(callee):
 
 
 class Prov:
-    def __init__(self, prog, sources=None, inline=True, mutflow=True):
+    def __init__(self, prog, sources=None, inline=True, mutflow=True, bind_closures=True):
         """sources: predicate(callee) -> label or None.  A source callee cuts the slice: the result is
         ('source', label, body_id, bb, path) and its arguments do not leak."""
         self.prog = prog
         self.sources = sources
         self.inline = inline
         self.mutflow = mutflow
+        self.bind_closures = bind_closures
         self._mut_sites = {}
         self._defs = {}
 
@@ -351,7 +352,7 @@ class Prov:
                 if ai < len(t.args):
                     self._operand(cbody, t.args[ai], path, ctx[:-1], out, seen)
                 return
-        if body.kind == "Closure" and local >= 2:
+        if body.kind == "Closure" and local >= 2 and self.bind_closures:
             if self._closure_param(body, local, path, out, seen):
                 return
         out.add(("param", body.id, local, path))
